@@ -209,7 +209,7 @@ func genLeafRuns(r *rng, kinds []LeafCfg, budgets []int, fullMasks bool, emit fu
 							t.next, t.errN = r.intn(30), r.intn(20)
 							scr := t.leafScript(0, 0, prepOK, m, att, fbOK, postStr(t, pk, "a"))
 							cnt++
-							if cnt%3 == 0 {
+							if (cnt/3)%3 == 0 { // (not cnt%3: that would tie the variant to the post kind)
 								emit(asFlowStep(cfg, scr, t))
 							} else {
 								emit(singleRun(cfg, scr))
@@ -576,6 +576,15 @@ func injectAt(sc FlowScenario, ev string, mode string, errN int) (FlowScenario, 
 				return s
 			}
 			return s + "*"
+		}
+		if f[0] == "o" || f[0] == "bo" {
+			if errN%2 == 0 {
+				return "!" + strconv.Itoa(errN) + "+=rollback" // the callback returns an action together with its error
+			}
+			return "!" + strconv.Itoa(errN)
+		}
+		if errN%3 == 0 && (f[0] == "p" || f[0] == "e" || f[0] == "f") {
+			return "!" + strconv.Itoa(errN) + "+t" + strconv.Itoa(40+errN%7) // … a value together with its error
 		}
 		return "!" + strconv.Itoa(errN)
 	}
